@@ -1850,10 +1850,11 @@ fn read_residuals<R: BitRead, I: SignedInteger>(
         let partition_order = reader.read::<4, u32>()?;
         let partition_count = 1 << partition_order;
 
+        // the block must divide evenly into the partitions
+        // and the first partition must hold at least one residual
         let partition_len = match block_size / partition_count {
-            // more partitions than samples in the block
-            0 => return Err(Error::InvalidPartitionOrder),
-            len => len,
+            len if block_size % partition_count == 0 && len > predictor_order => len,
+            _ => return Err(Error::InvalidPartitionOrder),
         };
 
         let partitions = residuals.rchunks_mut(partition_len).rev();
